@@ -180,6 +180,22 @@ def register(R, tier="quick"):
                note="skip_to_quality(q) over several segments: each segment's matcher only passes entries scoring at most q, "
                     "and an exhausted segment hands over to the next non-empty one")
 
+    def mq_bounds_rest(I, env):
+        """the answer bounds the score of every entry not yet passed, in the current segment and in every later one"""
+        o = env["self"]
+        fam, cur = o.fields["matchers"], o.fields["current"]
+        j, s = z3.Int("mq_j"), z3.Int("mq_s")
+        r = env["result"]
+        r = z3.ToReal(r) if z3.is_int(r) else r
+        return z3.ForAll([j, s], z3.Implies(z3.And(cur <= j, j < fam.n, fam.SS(j, s), s >= fam.cur_of(j)), fam.SC(j, s) <= r))
+
+    R.contract(K + "max_quality", props=["C12", "C05"], setup=mk, cover_hint=hint, requires=["minv(self)", ACTIVE, all_quality],
+               ensures=[mq_bounds_rest], returns="real",
+               canaries=[Canary("current-segment-only", "self.matchers[self.current:]", "self.matchers[self.current:self.current + 1]"),
+                         Canary("skips-current-segment", "self.matchers[self.current:]", "self.matchers[self.current + 1:]", expect=None)],
+               note="max_quality() over several segments: the largest of the remaining segments' bounds, hence a bound on "
+                    "every remaining score of the whole list (a bound taken from the current segment alone is refuted)")
+
     # ------------------------------------------------------------------ construction and reset
     def fresh_children(I, env):
         """no child has been advanced: every child stands on its first entry (or is empty)"""
